@@ -60,6 +60,15 @@ def main():
         rep = json.load(open(args.replay))
         args.pid = rep["property"]
         only = rep["key"]
+        ro = rep.get("obligation", {})
+        print(f"REPLAY {args.replay}")
+        print(f"  recorded on tree {rep.get('tree')} ({rep.get('tier')}): [{ro.get('kind')}] {ro.get('id')} ({ro.get('config')})")
+        print(f"  {ro.get('detail')}")
+        for s_ in ro.get("sites", [])[:8]:
+            print(f"    site: {s_}")
+        if ro.get("witness"):
+            print(f"    witness: {json.dumps(ro['witness'])[:1500]}")
+        print("  re-evaluating that rule instance on the current tree ...")
     pid = args.pid
     if not pid:
         ap.error("property id required")
@@ -115,7 +124,7 @@ def main():
 
     out_dir = os.path.join(VERIF, "out", "violations", pid)
     os.makedirs(out_dir, exist_ok=True)
-    for f in os.listdir(out_dir):
+    for f in ([] if only is not None else os.listdir(out_dir)):
         try:
             os.remove(os.path.join(out_dir, f))
         except OSError:
@@ -151,6 +160,14 @@ def main():
                    "tree": states[ob["config"]].get("tree")}, open(path, "w"), indent=1)
         print(f"VIOLATION property={pid} replay={path}")
 
+    if only is not None:
+        same = [o for o in all_obs if o["key"] == only]
+        if not same:
+            print(f"REPLAY-RESULT: the rule instance {only} no longer exists on this tree (its anchor changed); run the full check")
+        elif violations:
+            print(f"REPLAY-RESULT: still violated on the current tree")
+        else:
+            print(f"REPLAY-RESULT: holds on the current tree")
     if not args.no_evidence and only is None:
         write_evidence(pid, mod, tier, seed, all_obs, violations, known_hit, stats, states, configs, time.time() - t0)
     sys.exit(1 if violations else 0)
